@@ -467,17 +467,75 @@ def _rest(ck, fa, R3, R4, R5, R6):
     # ... for EVERY metadata key string: the object path (the one built without the metadata key)
     # may be selected only by `metadata_key is None`, not by the key's truth value ('' is a key)
     ck.rule("C07.R9", "the object path is selected only when no metadata key is given (`is None`), never by the truth value of the key string", 1)
-    mk_tests = []
-    for n in gp.cfg.nodes:
-        if n.kind == "test":
-            for a in A.test_atoms(n.ast):
-                if "metadata_key" in {x.id for x in ast.walk(a) if isinstance(x, ast.Name)}:
-                    mk_tests.append(a)
-    obj_paths = [r for r in gp.returns() if "param:metadata_key" not in gp.deps(r.value)]
-    none_tests = [a for a in mk_tests if isinstance(a, ast.Compare) and len(a.ops) == 1 and isinstance(a.ops[0], (ast.Is, ast.IsNot))
-                  and A.norm(a.comparators[0]) == "None" and A.norm(a.left) == "metadata_key"]
+    GP = gp.fi.params
+    mk = "metadata_key" if "metadata_key" in GP else (GP[2] if len(GP) > 2 else "metadata_key")
+    # every condition on the metadata key, wherever it is evaluated: if / while tests, conditional expressions,
+    # operands of and / or used for their truth value, assert, comprehension filters
+    conds = []
+    for x in A.walk_body(gp.node):
+        if isinstance(x, (ast.If, ast.While, ast.IfExp, ast.Assert)):
+            conds.append(x.test)
+        elif isinstance(x, ast.BoolOp):
+            conds += x.values[:-1] if not any(x is c_ or x in ast.walk(c_) for c_ in conds) else []
+        elif isinstance(x, ast.comprehension):
+            conds += x.ifs
+
+    def atoms(t):
+        if isinstance(t, ast.UnaryOp) and isinstance(t.op, ast.Not):
+            return atoms(t.operand)
+        if isinstance(t, ast.BoolOp):
+            return [a for v in t.values for a in atoms(v)]
+        return [t]
+
+    def reads_mk(a):
+        if mk in {x.id for x in ast.walk(a) if isinstance(x, ast.Name)}:
+            return True
+        ids = gp.nodes(a)
+        return bool(ids) and any("param:" + mk in gp.df.deps(a, i) for i in ids[:1])
+
+    mk_tests = [a for t in conds for a in atoms(t) if reads_mk(a)]
+
+    def is_none_test(a):
+        if not (isinstance(a, ast.Compare) and len(a.ops) == 1 and isinstance(a.ops[0], (ast.Is, ast.IsNot)) and A.norm(a.comparators[0]) == "None"):
+            return False
+        ids = gp.nodes(a)
+        return A.norm(a.left) == mk or (bool(ids) and gp.xnorm(a.left, ids[0]) == mk)
+
+    none_tests = [a for a in mk_tests if is_none_test(a)]
     bad_t = [a for a in mk_tests if a not in none_tests]
-    ok9 = bool(obj_paths) and not bad_t and (bool(none_tests) or "metadata_key" not in gp.fi.params)
+    # with no metadata key, some returned path is built without it (the object path)
+    from .effects import Assume as _As
+    nokey = _As(gp, lambda e: True if (isinstance(e, ast.Compare) and len(e.ops) == 1 and isinstance(e.ops[0], ast.Is)
+                                       and A.norm(e.left) == mk and A.is_none(e.comparators[0])) else None)
+
+    def prune(e):
+        class Pr(ast.NodeTransformer):
+            def visit_IfExp(self, n):
+                t = nokey.ev(n.test)
+                if t is True:
+                    return self.visit(n.body)
+                if t is False:
+                    return self.visit(n.orelse)
+                return self.generic_visit(n)
+        return Pr().visit(e)
+
+    obj_paths = []
+    for r in gp.returns():
+        for i in nokey.live(r):
+            if r.value is None:
+                continue
+            e = prune(gp.expand(r.value, i))
+            free = {x.id for x in ast.walk(e) if isinstance(x, ast.Name)}
+            dep = mk in free
+            for nm in free:
+                for d in nokey.IN().get(i, ()):
+                    if d.name == nm and d.kind != "param" and d.value is not None:
+                        for (leaf, n) in nokey.cases(d.value, d.node):
+                            if "param:" + mk in gp.df.deps(prune(gp.expand(leaf, n)), n):
+                                dep = True
+            if not dep:
+                obj_paths.append(r)
+    ok9 = bool(obj_paths) and not bad_t and (bool(none_tests) or mk not in gp.fi.params)
     ck.ob("C07.R9", gp.key(None, "object-path-only-for-None"), ok9, "the object path is chosen by `metadata_key is None` (%d test(s))" % len(none_tests) if ok9 else
           "`%s` decides between the object path and the side-car path: the empty metadata key '' is falsy, so "
           "put_metadata('', value, store_with_data=True) opens the result object itself for writing and replaces its bytes"
